@@ -618,13 +618,18 @@ def iteration_context(cs):
 
 def cas_flow(fn, cas_call):
     """P = "the compare_exchange of this call succeeded" propagated over fn's body (helpers spliced in)."""
-    bb = cas_call.bb
+    return result_flow(fn, "compare_exchange", "compare_exchange_weak")
+
+
+def result_flow(fn, *callee_suffixes):
+    """P = "the Result returned by the call to one of `callee_suffixes` is Ok" propagated over fn's body, whichever way the
+    result is inspected: match, if let, is_ok()/is_err(), == Ok(..), `?`."""
 
     def is_cas(s):
         s = strip_sym(s)
         if not (isinstance(s, tuple) and s and s[0] == "call"):
             return False
-        return any(isinstance(n, str) and (path_is(n, "compare_exchange") or path_is(n, "compare_exchange_weak")) for n in (s[1], s[3]))
+        return any(isinstance(n, str) and any(path_is(n, suf) for suf in callee_suffixes) for n in (s[1], s[3]))
 
     def csw(subj, variant):
         if is_cas(subj):
